@@ -119,10 +119,17 @@ EV0 = 'old(p).sp_events()'
 EV1 = 'final(p).sp_events()'
 FRAME_P = ('final(p).sp_rest() == old(p).sp_rest(),\n'
            '            eaten(final(p).sp_events()) == eaten(old(p).sp_events()) /*@C01.marker.frame*/,\n'
-           '            ev_mono(old(p).sp_events(), final(p).sp_events()) /*@C02.marker.nodestart-stable*/')
+           '            ev_mono(old(p).sp_events(), final(p).sp_events()) /*@C02.marker.nodestart-stable*/,\n'
+           '            l3::events_ok(old(p).sp_events()) ==> l3::events_ok(final(p).sp_events()) /*@C02.events-ok-preserved*/')
 FRAME_SELF = ('final(self).sp_rest() == old(self).sp_rest(),\n'
               '            eaten(final(self).sp_events()) == eaten(old(self).sp_events()) /*@C01.marker.frame*/,\n'
-              '            ev_mono(old(self).sp_events(), final(self).sp_events()) /*@C02.marker.nodestart-stable*/')
+              '            ev_mono(old(self).sp_events(), final(self).sp_events()) /*@C02.marker.nodestart-stable*/,\n'
+              '            l3::events_ok(old(self).sp_events()) ==> l3::events_ok(final(self).sp_events()) /*@C02.events-ok-preserved*/')
+
+# C02 / H-EV: l3::events_ok (units/c01_green/iface.rs, pasted into `mod l3` by the template) is preserved by everything under contract
+EVOK_SELF = 'l3::events_ok(old(self).events@) ==> l3::events_ok(final(self).events@) /*@C02.events-ok-preserved*/'
+EVOK_INV = 'l3::events_ok(old(self).events@) ==> l3::events_ok(self.events@), /*@C02.events-ok-preserved*/'
+BU = 'broadcast use {lemma_eaten_push, lemma_evok_push};'
 
 TRAIT_GHOST = """
     // ghost interface added by rule `trait-spec-overlay` (specification only)
@@ -150,20 +157,21 @@ TRAIT_METHODS = {
             m.position == old(self).sp_events().len(),
             final(self).sp_level() == old(self).sp_level() + 1,
             """ + FRAME_SELF,
-        'body_first': 'broadcast use lemma_eaten_push;',
+        'body_first': BU,
         'proof': [(r'\.push\(MarkEvent::NodeStart \{ kind, parent: 0 \}\);', 'after', 'proof { self.lemma_events_bounded(); }')]},
     'push_node_end': {
         'requires': 'old(self).sp_level() > 0',
         'ensures': """final(self).sp_events() == old(self).sp_events().push(MarkEvent::NodeEnd),
             final(self).sp_level() == old(self).sp_level() - 1,
             """ + FRAME_SELF,
-        'body_first': 'broadcast use lemma_eaten_push;'},
+        'body_first': BU},
 }
 
 MARKER_OK = 'self.position < old(p).sp_events().len(), old(p).sp_events()[self.position as int] is NodeStart'
 
 PARSER_FRAME = ('same_cursor(final(self), old(self)),\n'
                 '            ev_mono(old(self).events@, final(self).events@),\n'
+                '            ' + EVOK_SELF + ',\n'
                 '            final(self).mark_level >= old(self).mark_level,\n'
                 '            lvl_ok(final(self))')
 
@@ -174,6 +182,7 @@ invariant
     forall|q: int| start < q < next_index ==> sp_trivia(self.tokens@[q].kind),
     k == (if sp_trivia(self.tokens@[start as int].kind) { start as int } else { start + 1 }),
     same_cursor(self, old(self)), ev_mono(old(self).events@, self.events@), self.mark_level >= old(self).mark_level, lvl_ok(self),
+    """ + EVOK_INV + """
     // doc_tokens is the pending, not yet emitted, contiguous slice tokens[j .. e)
     ({ let e = if i < k { k } else { i as int }; let j = e - doc_tokens@.len();
        &&& k <= j
@@ -207,7 +216,8 @@ UNIT = {
             final(p).sp_level() == old(p).sp_level(),
             """ + FRAME_P,
             proof=[(r'_ => unreachable!\(\),\s*\}', 'after',
-                    'proof { lemma_alters_frame(old(p).sp_events(), p.sp_events(), self.position as int); }')]),
+                    'proof { lemma_alters_frame(old(p).sp_events(), p.sp_events(), self.position as int);\n'
+                    '        if l3::events_ok(old(p).sp_events()) { lemma_evok_alter(old(p).sp_events(), p.sp_events(), self.position as int); } }')]),
         'Marker::complete': m_fn(
             'Marker', 'complete', ret='cm',
             requires=MARKER_OK + ',\n        old(p).sp_events().len() != self.position + 1 ==> old(p).sp_level() > 0',
@@ -223,7 +233,8 @@ UNIT = {
             old(p).sp_level() <= old(p).sp_events().len() ==> final(p).sp_level() <= final(p).sp_events().len(),
             """ + FRAME_P,
             proof=[(r'return CompleteMarker \{', 'before',
-                    'proof { lemma_alters_frame(old(p).sp_events(), p.sp_events(), self.position as int); }')]),
+                    'proof { lemma_alters_frame(old(p).sp_events(), p.sp_events(), self.position as int);\n'
+                    '        if l3::events_ok(old(p).sp_events()) { lemma_evok_alter(old(p).sp_events(), p.sp_events(), self.position as int); } }')]),
         'Marker::undo': m_fn(
             'Marker', 'undo', ret='cm',
             requires=MARKER_OK,
@@ -233,7 +244,8 @@ UNIT = {
             cm.start == self.position, cm.kind is None,
             """ + FRAME_P,
             proof=[(r'_ => unreachable!\(\),\s*\}', 'after',
-                    'proof { lemma_alters_frame(old(p).sp_events(), p.sp_events(), self.position as int); }')]),
+                    'proof { lemma_alters_frame(old(p).sp_events(), p.sp_events(), self.position as int);\n'
+                    '        if l3::events_ok(old(p).sp_events()) { lemma_evok_alter(old(p).sp_events(), p.sp_events(), self.position as int); } }')]),
         'CompleteMarker': {'src': {'file': M, 'kind': 'struct', 'name': 'CompleteMarker'}, 'rules': ['vis-pub', ('struct-fields', {})]},
         'CompleteMarker::precede': m_fn(
             'CompleteMarker', 'precede', ret='m',
@@ -248,10 +260,12 @@ UNIT = {
             m.position == old(p).sp_events().len(),
             final(p).sp_level() == old(p).sp_level() + 1,
             """ + FRAME_P,
-            body_first='broadcast use lemma_eaten_push;',
+            body_first=BU,
             proof=[(r'let m = p\.mark\(kind\);', 'after', 'let ghost ev1 = p.sp_events();'),
                    (r'_ => unreachable!\(\),\s*\}', 'after',
-                    'proof { lemma_alters_frame(ev1, p.sp_events(), self.start as int); }')]),
+                    'proof { lemma_alters_frame(ev1, p.sp_events(), self.start as int);\n'
+                    '        // the stored link m.position == old len is LATER than self.start (< old len) and holds the NodeStart just pushed by mark\n'
+                    '        if l3::events_ok(old(p).sp_events()) { lemma_evok_alter(ev1, p.sp_events(), self.start as int); } }')]),
         'CompleteMarker::empty': m_fn('CompleteMarker', 'empty', ret='r', ensures='r.start == 0, r.kind is None'),
         'CompleteMarker::is_invalid': m_fn('CompleteMarker', 'is_invalid', ret='r', ensures='r == (self.kind is None)'),
         'LuaParser': {'src': {'file': P, 'kind': 'struct', 'name': 'LuaParser'},
@@ -266,6 +280,7 @@ UNIT = {
             ensures="""inv(final(self)) /*@C01.init.establishes-inv*/,
             final(self).tokens@ == old(self).tokens@, final(self).parse_config == old(self).parse_config,
             ev_mono(old(self).events@, final(self).events@),
+            """ + EVOK_SELF + """,
             final(self).mark_level >= old(self).mark_level,
             final(self).token_index == final(self).tokens@.len() || !sp_trivia(final(self).current_token)""",
             proof=[(r'if is_trivia_kind\(self\.current_token\) \{', 'before',
@@ -284,6 +299,7 @@ UNIT = {
             requires='inv(old(self)), !(kind is None), !(kind is TkEof)',
             ensures="""inv(final(self)) /*@C01.set-kind.keeps-inv*/,
             final(self).events@ == old(self).events@, final(self).mark_level == old(self).mark_level,
+            """ + EVOK_SELF + """,
             final(self).token_index == old(self).token_index, final(self).parse_config == old(self).parse_config,
             final(self).tokens@.len() == old(self).tokens@.len(),
             ranges(final(self).tokens@) == ranges(old(self).tokens@)""",
@@ -296,9 +312,10 @@ UNIT = {
             final(self).token_index > old(self).token_index || old(self).token_index >= old(self).tokens@.len() /*@C02.bump.progress*/,
             final(self).tokens@ == old(self).tokens@, final(self).parse_config == old(self).parse_config,
             ev_mono(old(self).events@, final(self).events@),
+            """ + EVOK_SELF + """,
             final(self).mark_level >= old(self).mark_level,
             final(self).token_index == final(self).tokens@.len() || !sp_trivia(final(self).current_token)""",
-            body_first='broadcast use lemma_eaten_push;',
+            body_first=BU,
             proof=[(r'self\.parse_trivia_tokens\(next_index\);', 'after',
                     'proof { lemma_mono_trans(old(self).events@, ev1, self.events@); }'),
                    (r'let mut next_index = self\.token_index[^;]*;', 'before',
@@ -345,7 +362,7 @@ decreases self.tokens@.len() - *index"""}),
             attrs='#[verifier::spinoff_prover]',
             body_first="""let ghost k: int = if sp_trivia(self.tokens@[self.token_index as int].kind) { self.token_index as int } else { self.token_index + 1 };""",
             proof=[
-                (r'for i in start\.\.next_index \{', 'after', 'broadcast use lemma_eaten_push;'),
+                (r'for i in start\.\.next_index \{', 'after', BU),
                 (r'let token = &self\.tokens\[i\];', 'after',
                  """let ghost j0: int = (if i < k { k } else { i as int }) - doc_tokens@.len();
             let ghost ee = eaten(self.events@);
@@ -396,6 +413,7 @@ invariant
     forall|q: int| 0 <= q < comment_tokens@.len() ==> *VERUS_ghost_iter.seq()[q] == comment_tokens@[q],
     r == ranges(comment_tokens@), eaten(self.events@) == e0 + r.take(VERUS_ghost_iter.index()), /*@C01.parse_comments.emits-slice*/
     same_cursor(self, old(self)), ev_mono(old(self).events@, self.events@), self.mark_level == old(self).mark_level, lvl_ok(self),
+    """ + EVOK_INV + """
 """,
                 1: """
 invariant
@@ -411,11 +429,12 @@ invariant
     0 < trivia_token_start <= comment_tokens@.len(),
     r == ranges(comment_tokens@), eaten(self.events@) == e1 + r.subrange(trivia_token_start as int, trivia_token_start + VERUS_ghost_iter.index()), /*@C01.parse_comments.emits-slice*/
     same_cursor(self, old(self)), ev_mono(old(self).events@, self.events@), self.mark_level >= old(self).mark_level, lvl_ok(self),
+    """ + EVOK_INV + """
 """,
             },
             proof=[
-                (r'for token in comment_tokens \{', 'after', 'broadcast use lemma_eaten_push;'),
-                (r'\.skip\(trivia_token_start[^)]*\) \{', 'after', 'broadcast use lemma_eaten_push;'),
+                (r'for token in comment_tokens \{', 'after', BU),
+                (r'\.skip\(trivia_token_start[^)]*\) \{', 'after', BU),
                 (r'for token in comment_tokens \{[\s\S]*?range: token\.range,\s*\}\);', 'after',
                  """proof {
                     let n = VERUS_ghost_iter.index();
@@ -468,12 +487,15 @@ invariant
             final(p).token_index == final(p).tokens@.len(),
             ranges(final(p).tokens@) == ranges(old(p).tokens@), doc_mode(final(p)) == doc_mode(old(p)),
             emits(eaten(final(p).events@), ranges(old(p).tokens@), doc_mode(old(p))) /*@C01.parse_chunk.all-tokens-emitted*/,
-            final(p).events@.len() > 0 && final(p).events@[0] is NodeStart""",
+            final(p).events@.len() > 0 && final(p).events@[0] is NodeStart,
+            l3::events_ok(final(p).events@) /*@C02.events-ok-preserved*/""",
+            'body_first': 'proof { lemma_evok_empty(p.events@); }',
             'loops': {0: """
 invariant
     inv(p), ranges(p.tokens@) == ranges(old(p).tokens@), p.tokens@.len() == old(p).tokens@.len(), doc_mode(p) == doc_mode(old(p)),
     p.mark_level >= 1,
     m.position == 0, p.events@.len() > 0, p.events@[0] is NodeStart,
+    l3::events_ok(p.events@), /*@C02.events-ok-preserved*/
 decreases p.tokens@.len() - p.token_index"""},
             'proof': [
                 (r'let consume_count = p\.current_token_index\(\);', 'after', 'let ghost ti0 = p.token_index;'),
